@@ -261,6 +261,8 @@ class AdaptiveStream:
         self.out_mode = False
         self.shift = rng.choice([-1, 1], size=d) * float(rng.choice([3, 6]))
         self.integer = rng.random() < 0.1
+        # mixed mode: some rows are whole numbers; such rows are handed over as lists of Python ints, the others as lists of floats
+        self.mixed = (not self.integer) and rng.random() < 0.25
         self.feedback = float(rng.choice([0.0, 0.5, 0.8, 0.95]))
 
     def __len__(self):
@@ -280,6 +282,8 @@ class AdaptiveStream:
             if rng.random() < 0.03:
                 self.mu = self.mu + rng.choice([-1, 1], size=self.d) * 2.0
             x = rng.normal(self.mu + (self.shift if self.out_mode else 0), 0.7 if self.out_mode else 1.0, size=self.d)
+        if self.mixed and rng.random() < 0.3:
+            return np.round(x)
         return np.round(x) if self.integer else x
 
 
@@ -314,7 +318,13 @@ def run_stream(case, ctx):
             seen.append(x)
             np.random.seed(rngtap.seed_for(case.get("seed_key", case["id"]), i))
             mark = tap.mark()
-            det.update(x.reshape(1, -1).copy())
+            if getattr(data, "mixed", False):
+                # the same values as a plain list: whole-number rows become lists of ints (the container / dtype may vary per sample)
+                row = [int(v) if float(v).is_integer() else float(v) for v in x]
+                det.update([row] if i % 2 else row)
+                ctx.count("stream_samples_as_mixed_lists")
+            else:
+                det.update(x.reshape(1, -1).copy())
             ev = tap.since(mark)
             base = dict(params=kw, data=[v.tolist() for v in seen], step=i)
             if state == "drift":  # start over with a new reference window
